@@ -38,6 +38,8 @@ Record linst := {
   gi_cut : Z }.                 (* ledger - period of the last enforcement (entries <= it have left the window) *)
 
 Definition ghost_l := list (key * linst).
+(* the part of the log the specification expects to be stored *)
+Definition stored (i : linst) : list entry := newer (gi_cut i) (gi_log i).
 
 (* effect of enforcing the contexts of one batch at ledger [nw] on the log *)
 Fixpoint log_batch (nw : Z) (ctxs : list context) (log : list entry) : list entry :=
